@@ -650,7 +650,6 @@ Definition amt_neg (m : amount) : bool :=
 Definition p_reshape (fill : option elem) (sc : bool) (amts : list amount) (a : arr) : res arr :=
   if existsb (fun m => match m with AFrac | ANaN => true | _ => false end) amts then Err else
   if existsb (fun m => match m with AInt z => (amt_limit <? Z.abs z)%Z | _ => false end) amts then Unspec else
-  if (8 <? zlen amts)%Z then Unspec else       (* resource guard: the implementation limits the number of axes *)
   if (size_limit <? zprod (map (fun m => match m with AInt z => Z.abs z | _ => 1%Z end) amts) * Z.max 1 (zlen (adata a)))%Z then Unspec else
   if sc then
     match amts with
@@ -662,15 +661,20 @@ Definition p_reshape (fill : option elem) (sc : bool) (amts : list amount) (a : 
     let ninf := length (filter (fun m => match m with AInf _ => true | _ => false end) amts) in
     if Nat.ltb 1 ninf then Err else
     let total := length (adata a) in
-    let known := prodn (map (fun m => match m with AInt z => Z.to_nat (Z.abs z) | _ => 1%nat end) amts) in
+    (* element counts are multiplied out in Z: a product of unary naturals is evaluated from the
+       trailing axes on and can be astronomically large before it meets an axis of length 0 *)
+    let knownz := zprod (map (fun m => match m with AInt z => Z.abs z | _ => 1%Z end) amts) in
+    let known := Z.to_nat knownz in
     let f := fill_for fill (aty a) in
     match box_fill fill (aty a) with true => Unspec | false =>
-    if Nat.eqb ninf 1 && Nat.eqb known 0 then Unspec else
+    if Nat.eqb ninf 1 && (knownz =? 0)%Z then Unspec else
     let derived := match f with
                    | None => (total / known)%nat
                    | Some _ => ((total + known - 1) / known)%nat end in
     let sh := map (fun m => match m with AInt z => Z.to_nat (Z.abs z) | _ => derived end) amts in
-    let n := prodn sh in
+    let nz := zprod (map Z.of_nat sh) in
+    if (nz =? 0)%Z then Ok (Arr (aty a) sh []) else      (* some axis has length 0: no elements *)
+    let n := Z.to_nat nz in
     match f with
     | Some e => Ok (Arr (aty a) sh (rev_axes (map amt_neg amts) sh (pad_to n e (adata a))))
     | None =>
